@@ -34,9 +34,12 @@ reg('C18', True,
     'ordering; timed predicates compare a steady clock (compile-time is_steady witness) against an end point computed '
     'once from the duration argument and captured by value, direction now>=end, interval clamped; solve(double) passes '
     'its own duration; exact-solution pass-through; cost-convergence terminate() only under window-full and both strict '
-    'threshold tests with thresholds from the previous average. Not decided: moving-average arithmetic, real-time lag.',
+    'threshold tests with thresholds from the previous average; the stored average is, as an algebraic normal form, '
+    '((w-1)*old + c)/w with w = min(solutions+1, window) and the counter advances by one. Not decided: rounding of the '
+    'average, real-time lag.',
     'clang 14 AST/CFG of four units; std::function/std::thread/std::atomic semantics are trusted',
-    'finite-domain abstract evaluation of decision trees + who-may-write + type-level witness (-fsyntax-only)')
+    'finite-domain abstract evaluation of decision trees + who-may-write + type-level witness (-fsyntax-only) + algebraic '
+    'normal form of the window average')
 reg('C12', True,
     'Narrow claim. Decides the structural necessary conditions of the weighted-sampling structure on its instantiation: '
     'element handle (index_) and data_ slot stay paired on add and on remove\'s swap, the leaf-row swap exchanges the same '
@@ -54,7 +57,9 @@ reg('C19', True,
     'field, a static-storage object or through const_cast; (b) every access to the data of the four mutex-protected '
     'singletons happens with their own mutex held (lock-set analysis over the CFG); (c) manual lock()/unlock() are paired '
     'on all paths and created threads are joined; (d) a frozen, read-confirmed table of 36 (worker function, shared '
-    'member, mutex) triples and 8 locked base-class calls of the multi-threaded planners holds. Not decided: '
+    'member, mutex) triples and 8 locked base-class calls of the multi-threaded planners holds; (e) the termination '
+    'condition\'s eval() reads the request flag before the cached value (a terminate() from another thread is seen by the '
+    'next eval() in periodic mode too). Not decided: '
     'linearizability, solution quality under interleavings. Known finding: AtlasStateSpace mutates its atlas in const '
     'geodesic traversal (TSan-confirmed).',
     'clang 14 AST/CFG of 44 units; user callbacks (validity checker, constraint function) end the traversal; std '
@@ -68,10 +73,15 @@ reg('C04', True,
     'incumbent-update sites store the new cost only under isCostBetterThan(new, incumbent) with that argument order '
     '(first-solution / objective-satisfied idioms as reasoned exceptions), resets only outside loops; PathGeometric::cost '
     'and length are the adjacent-pair folds; parent, cost and incCost of an RRT* node are assigned together at every '
-    're-parenting. Not decided: stored cost vs true cost for planners with deferred '
+    're-parenting and parent/children links are kept two-way; where a candidate replaces a selected node under a cost '
+    'comparison, the bound is the cost of the replaced node or a running cost updated in the same branch; every edge cost '
+    'or cost-to-come stored in a search tree (30 sinks in RRT*, RRTX, AIT*, EIT*, BIT*) derives from '
+    'OptimizationObjective::motionCost and costs already in the tree, never from a heuristic / best-estimate function. '
+    'Not decided: stored cost vs true cost for planners with deferred '
     'propagation, admissibility of heuristics, BIT*/LBTRRT incumbent idioms (listed).',
-    'clang 14 AST/CFG of 17 units; the objective\'s virtual cost functions are opaque',
-    'finite-domain abstract evaluation (strict weak order + spec table) + call-site argument agreement + guard shape')
+    'clang 14 AST/CFG of 24 units; the objective\'s virtual cost functions are opaque',
+    'finite-domain abstract evaluation (strict weak order + spec table) + call-site argument agreement + guard shape + '
+    'value-provenance (origin sets) of stored costs')
 reg('C13', True,
     'Decides for all histories the per-operation necessary conditions: neighbour probes are exactly -1/+1 in every '
     'dimension with the coordinate restored; every neighbour-counter write re-establishes border <=> count < limit '
@@ -145,7 +155,10 @@ reg('C01', True,
     'is the node whose state goal->isSatisfied tested; PathGeometric::check covers state 0 and every adjacent pair; path '
     'assembly loops cover every extracted node; interpolation parameters A/D are guarded by D > A or followed by '
     'enforceBounds before use; a scratch connection target is reloaded before it is handed again to a callee that may '
-    'truncate it (BiTRRT); RRTConnect\'s side flag tgi.start designates the tree that holds tgi.xmotion at every read. '
+    'truncate it (BiTRRT); RRTConnect\'s side flag tgi.start designates the tree that holds tgi.xmotion at every read; in SBL, '
+    'pSBL and LBKPIECE1 the lazy-validation guard of a found connection validates exactly the two junction nodes (the node '
+    'freshly created by copyState and its counterpart); a delegating planner re-registers a sub-planner\'s path as exact only '
+    'under status == EXACT_SOLUTION (AnytimePathShortening). '
     'Not decided: correctness of checkMotion itself (C05), bounds of interpolated states in '
     'general, "no stretch longer than twice the resolution", BIT*/AIT*/EIT* edge bookkeeping beyond what is listed.',
     'clang 14 AST/CFG of 115 units; the validity checker and goal are opaque',
